@@ -84,6 +84,24 @@ def main():
                 for s2 in (("AT" * n)[:n], "A" * n, ("GC" * n)[:n]):
                     solve(dict(p, seq=s2, cfg=tiny, np_seed=0), shared=([c], []))
             out.append(solve(p, shared=(cs, os_)))
+    elif mode == "sibling_first":
+        # a sibling problem (same sequence, one parameter of each specification changed) is solved
+        # first in the same process: process-wide caches must not carry anything over
+        def sibling(d):
+            name, kws = d[0], dict((k, v) for k, v in d[1])
+            if "include_reverse_complement" in kws:
+                kws["include_reverse_complement"] = not kws["include_reverse_complement"]
+            elif "pattern" in kws and isinstance(kws["pattern"], str) and set(kws["pattern"]) <= set("ACGT"):
+                kws["pattern"] = kws["pattern"][::-1]
+            elif "window" in kws and kws["window"]:
+                kws["window"] = kws["window"] + 1
+            elif "boost" in kws:
+                kws["boost"] = 3.0
+            return [name, sorted(kws.items())]
+        for p in ps:
+            q = dict(p, constraints=[sibling(d) for d in p["constraints"]], objectives=[sibling(d) for d in p["objectives"]])
+            solve(q)
+            out.append(solve(p))
     print(json.dumps(out))
 
 
